@@ -638,32 +638,39 @@ def skipDecl : Nat → List Char → Option (List Char)
   | f + 1, '\'' :: cs => (after ['\''] cs).bind (skipDecl f)
   | f + 1, _ :: cs => skipDecl f cs
 
-/-- `<!ENTITY` already consumed: the declaration and the rest -/
-def entityDecl (s : List Char) : Option (Decl × List Char) := do
-  let s := skipWs s
-  let (param, s) := match s with
-    | '%' :: r => (true, skipWs r)
-    | _ => (false, s)
-  let (name, s) := takeName s
-  if name.isEmpty then none
-  let s := skipWs s
+/-- the definition part of an entity declaration (after the name and white space): an entity value,
+or an external identifier optionally followed by `NDATA` Name; then `S? >` -/
+def entityBody (param : Bool) (name : List Char) (s : List Char) : Option (Decl × List Char) :=
   match quoted s with
   | some (v, r) =>
-    let r ← stripPrefix ['>'] (skipWs r)
-    pure (if param then .paramEntity (String.ofList name) else .entity (String.ofList name) (String.ofList v), r)
+    (stripPrefix ['>'] (skipWs r)).map fun r' =>
+      (if param then .paramEntity (String.ofList name)
+       else .entity (String.ofList name) (String.ofList v), r')
   | none =>
-    let (ext, r) ← externalId s
-    if !ext then none
-    let r := skipWs r
-    match stripPrefix "NDATA".toList r with
-    | some r' =>
-      let (n, r'') := takeName (skipWs r')
-      if n.isEmpty then none
-      let r3 ← stripPrefix ['>'] (skipWs r'')
-      pure (.unparsed (String.ofList name), r3)
-    | none =>
-      let r3 ← stripPrefix ['>'] r
-      pure (if param then .paramEntity (String.ofList name) else .extEntity (String.ofList name), r3)
+    match externalId s with
+    | some (true, r) =>
+      let r := skipWs r
+      match stripPrefix "NDATA".toList r with
+      | some r' =>
+        let nr := takeName (skipWs r')
+        if nr.1.isEmpty then none
+        else (stripPrefix ['>'] (skipWs nr.2)).map fun r3 => (.unparsed (String.ofList name), r3)
+      | none =>
+        (stripPrefix ['>'] r).map fun r3 =>
+          (if param then .paramEntity (String.ofList name) else .extEntity (String.ofList name), r3)
+    | _ => none
+
+/-- optional `%` S in front of the name of an entity declaration: (is a parameter entity, rest) -/
+def entityPercent (s : List Char) : Bool × List Char :=
+  match s with
+  | '%' :: r => (true, skipWs r)
+  | _ => (false, s)
+
+/-- `<!ENTITY` already consumed: the declaration and the rest -/
+def entityDecl (s : List Char) : Option (Decl × List Char) :=
+  let ps := entityPercent (skipWs s)
+  let nr := takeName ps.2
+  if nr.1.isEmpty then none else entityBody ps.1 nr.1 (skipWs nr.2)
 
 /-- the internal subset after `[`: the declarations read so far, and `some rest` after the
 closing `]` if it was reached without a syntax error.  `live`: no parameter-entity reference has
